@@ -67,7 +67,7 @@ class ProxyFixMiddleware:
                     for name, header_value in headers
                     if name.lower() != b"host"
                 ]
-                headers.append((b"host", host.encode()))
+                headers.append((b"host", host.encode("latin1")))
                 scope["headers"] = headers
 
         await self.app(scope, receive, send)
